@@ -21,12 +21,14 @@ CONSTANTS OpsAt,       \* OpsAt[d] = number of operations after the prelude of d
           WithAttrs,   \* set/del at all
           NestSet,     \* nested execute_steps variants <<depth, shapes, ok>>
           TwoRuns,     \* after the closing a second Context is built (same process) and gets OpsB operations
-          OpsB
+          OpsB,
+          EqualLayers, \* also push a scenario layer inside a scenario layer and unnamed layers inside unnamed layers
+          UseOrRoot    \* also use_or_assign / use_or_create on the pre-defined names text, table (value None)
 
 VARIABLES ph, todo, s, m, ops, obs, lastv, n, maxn, rzOf, round
 vars == <<ph, todo, s, m, ops, obs, lastv, n, maxn, rzOf, round>>
 
-PreChain == << <<>>, <<2>>, <<2, 4>>, <<2, 3, 4>> >>
+PreChain == << <<>>, <<2>>, <<2, 4>>, <<2, 3, 4>>, <<2, 4, 0>> >>      \* depth 5: ... + one unnamed layer
 Init == /\ ph = "start" /\ todo = <<>> /\ s = SInit /\ m = MInit /\ ops = <<>> /\ obs = <<>>
         /\ lastv = {} /\ n = 0 /\ maxn = 0 /\ rzOf = <<0, 0, 0>> /\ round = 1
 
@@ -37,7 +39,7 @@ Do(op) == LET seq == Len(ops) + 1
              /\ lastv' = mv.v
 
 Start == /\ ph = "start"
-         /\ \E d \in {x \in 1..4 : OpsAt[x] > 0} : /\ todo' = PreChain[d]
+         /\ \E d \in {x \in DOMAIN OpsAt : OpsAt[x] > 0} : /\ todo' = PreChain[d]
                                                      /\ maxn' = OpsAt[d]
                                                      /\ ph' = IF d = 1 THEN "run" ELSE "pre"
          /\ UNCHANGED <<s, m, ops, obs, lastv, n, rzOf, round>>
@@ -52,7 +54,9 @@ Step(op) == Do(op) /\ n' = n + 1 /\ UNCHANGED <<ph, todo, maxn, round>>
 Plain(op) == Step(op) /\ UNCHANGED rzOf
 TopLayer == s.frames[Len(s.frames)].layer
 \* scopes nest the way model.py nests them; one unnamed layer (scoped_context_layer(context)) below a scenario
-NextLayers == CASE TopLayer = 1 -> {2} [] TopLayer = 2 -> {3, 4} [] TopLayer = 3 -> {4} [] TopLayer = 4 -> {0} [] OTHER -> {}
+NextLayers == CASE TopLayer = 1 -> {2} [] TopLayer = 2 -> {3, 4} [] TopLayer = 3 -> {4}
+                [] TopLayer = 4 -> IF EqualLayers THEN {0, 4} ELSE {0}
+                [] OTHER -> IF EqualLayers /\ Len(s.frames) < 7 THEN {0} ELSE {}
 SetNames == UNames \cup (IF WithFailed THEN {NmFailed} ELSE {})
 ValsOf(nm) == IF nm = NmFailed THEN {1} ELSE Vals
 \* layer= choices: current, every layer on the stack, and one layer that is not on the stack
@@ -69,8 +73,9 @@ SetRoot == Room /\ WithRoot /\ \E nm \in SetNames : \E v \in ValsOf(nm) : Plain(
 Get == Room /\ WithReads /\ \E nm \in SetNames : Plain(OpGet(nm))
 Has == Room /\ WithReads /\ \E nm \in SetNames : Plain(OpHas(nm))
 Del == Room /\ WithAttrs /\ \E nm \in SetNames : Plain(OpDel(nm))
-UseOrAssign == Room /\ WithUseOr /\ \E nm \in UNames, v \in Vals : Plain(OpUseOrAssign(nm, v))
-UseOrCreate == Room /\ WithUseOr /\ \E nm \in UNames : Plain(OpUseOrCreate(nm, 2))
+UseOrNames == UNames \cup (IF UseOrRoot THEN {NmText, NmTable} ELSE {})
+UseOrAssign == Room /\ WithUseOr /\ \E nm \in UseOrNames, v \in Vals : Plain(OpUseOrAssign(nm, v))
+UseOrCreate == Room /\ WithUseOr /\ \E nm \in UseOrNames : Plain(OpUseOrCreate(nm, 2))
 AddCleanup == Room /\ \E id \in 1..MaxIds, rz \in {0, 1}, a \in ArgModes, l \in LayerChoices :
                  /\ FreshOk(id) /\ RzOk(id, rz)
                  /\ Step(OpAddCleanup(id, rz, a, l))
@@ -134,5 +139,10 @@ NestFew == {<<2, 16, 1>>, <<2, 16, 0>>, <<2, 5, 0>>, <<3, 46, 1>>, <<3, 46, 0>>,
 Ops1010 == <<1, 0, 1, 0>>
 Ops1121 == <<1, 1, 2, 1>>
 Ops2000 == <<2, 0, 0, 0>>
+Ops2020 == <<2, 0, 2, 0>>
+Ops3020 == <<3, 0, 2, 0>>
+Ops00404 == <<0, 0, 4, 0, 4>>
+Ops00403 == <<0, 0, 4, 0, 3>>
+OpsSim5 == <<50, 50, 50, 50, 50>>
 Emit == (ph = "done" /\ (~TwoRuns \/ round = 2)) => PrintT(<<"CASE", ToJson([ops |-> ops, obs |-> obs])>>)
 =============================================================================
